@@ -111,6 +111,21 @@ impl FromVal for i64 {
         }
     }
 }
+macro_rules! small_int {
+    ($($t:ty),*) => {$(
+        impl FromVal for $t {
+            fn from_val(v: Val) -> $t {
+                <$t>::try_from(i64::from_val(v)).expect("harness: value outside the range of the small integer sample type")
+            }
+        }
+        impl Render for $t {
+            fn r(&self) -> String {
+                format!("{}", self)
+            }
+        }
+    )*};
+}
+small_int!(u8, i8);
 impl FromVal for Slope {
     fn from_val(v: Val) -> Slope {
         match i64::from_val(v) {
@@ -132,7 +147,7 @@ macro_rules! from_args_single {
         }
     )*};
 }
-from_args_single!(Q, f64, f32, i64, Slope, Fz);
+from_args_single!(Q, f64, f32, i64, Slope, Fz, u8, i8);
 
 /// an `f64` sample that keeps the sign of a zero on the protocol (`-0`): for code that merely stores, selects or hands on
 /// samples (median, the cache wrapper), `+0.0` and `-0.0` are two different values although `==` calls them equal
